@@ -168,8 +168,15 @@ func zzCategoryPod(i, cat int, v zzVariants) *corev1.Pod {
 	return nil
 }
 
-// zzParams builds strategy parameters for n nodes with the given categories.
+// zzParams builds strategy parameters for n nodes with the given categories (thorough tier: every
+// node chooses its own sub-variants).
 func zzParams(ds *datadoghqv1alpha1.ExtendedDaemonSet, rs *datadoghqv1alpha1.ExtendedDaemonSetReplicaSet, cats []int) (*Parameters, []*NodeItem) {
+	return zzParamsV(ds, rs, cats, false)
+}
+
+// zzParamsV: sharedVariants = even in the thorough tier all nodes of a path share one choice of
+// sub-variants (for harnesses whose node count makes per-node variants unaffordable).
+func zzParamsV(ds *datadoghqv1alpha1.ExtendedDaemonSet, rs *datadoghqv1alpha1.ExtendedDaemonSetReplicaSet, cats []int, sharedVariants bool) (*Parameters, []*NodeItem) {
 	p := &Parameters{
 		EDSName: zzEDSName, Strategy: &ds.Spec.Strategy, Replicaset: rs, ReplicaSetStatus: string(ReplicaSetStatusActive),
 		NewStatus:     rs.Status.DeepCopy(),
@@ -179,7 +186,8 @@ func zzParams(ds *datadoghqv1alpha1.ExtendedDaemonSet, rs *datadoghqv1alpha1.Ext
 	}
 	var items []*NodeItem
 	shared := zzVariants{}
-	if !nondet.Thorough() {
+	perNode := nondet.Thorough() && !sharedVariants
+	if !perNode {
 		shared = zzPickVariants("variant")
 	}
 	for i, cat := range cats {
@@ -187,7 +195,7 @@ func zzParams(ds *datadoghqv1alpha1.ExtendedDaemonSet, rs *datadoghqv1alpha1.Ext
 		items = append(items, ni)
 		p.NodeByName[ni.Node.Name] = ni
 		v := shared
-		if nondet.Thorough() && cat != zzNoPod && cat != zzUpToDateAvailable && cat != zzOutdatedAvailable {
+		if perNode && cat != zzNoPod && cat != zzUpToDateAvailable && cat != zzOutdatedAvailable {
 			v = zzPickVariants("n" + strconv.Itoa(i))
 		}
 		p.PodByNodeName[ni] = zzCategoryPod(i, cat, v)
